@@ -23,9 +23,13 @@ LEVEL = "proof"
 def flow(ctx, variant, count, seed):
     h = common.build_harness("flow", variant)
     out = {"cases": 0, "bad": [], "outcomes": {}, "lines": []}
-    for stream in (0, 1, 2, 3):
+    # 6: circuits without free capacity (every row covered by obstructions: finding F28 of C06); 7: the detailed placer is left with NO free
+    # row segment (rows tiled exactly by movable macros / under fixed macros) or exactly one; 8: rows of 8..12 standard cells with
+    # reordering windows of 6..8 cells (up to 8! orderings per window: a handful of cases)
+    for stream in (0, 1, 2, 3, 6, 7, 8):
         lines = common.corpus("C07", ("FL ",)) if stream == 0 else []
-        lines += common.harness_gen(h, [seed + stream, count // 4 if stream < 3 else count // 3, stream])
+        n = count // 4 if stream < 3 else count // 3 if stream == 3 else max(8, count // 8) if stream in (6, 7) else max(6, count // 300)
+        lines += common.harness_gen(h, [seed + stream, n, stream])
         impl, _, _ = common.run_both([h, "run"], None, lines, chunk=25, timeout=240)
         out["cases"] += len(lines)
         out["lines"] += lines[:2]
@@ -53,17 +57,18 @@ def param_set(h, line):
         nn = v[k]; k += 1
         for _ in range(nn):                 # nets: degree, 3 ints per pin, weight
             k += 1 + 3 * v[k] + 1
-        tail = v[k:] + [0] * 9              # stages effort seed netmodel cbmode cbk cbcell cbw pseed
+        tail = v[k:] + [0] * 11             # stages effort seed netmodel cbmode cbk cbcell cbw pseed
         effort, pseed = tail[1], tail[8]
+        over = (" + override detailed.reorderingMaxNbCells=%d reorderingNbRows=%d nbPasses>=1" % (tail[9], max(1, tail[10]))) if tail[9] > 0 else ""
     except Exception:
         return ""
     if pseed == 0:
-        return ""
+        return ("library defaults of the effort" + over) if over else ""
     try:
         r = subprocess.run([h, "show", str(effort), str(pseed)], capture_output=True, text=True, timeout=60)
-        return " ".join(r.stdout.split())
+        return (over[3:] + "; on top of: " if over else "") + " ".join(r.stdout.split())
     except Exception:
-        return ""
+        return over
 
 
 def internal(ctx, variant, name, gen_args, chunk):
@@ -78,6 +83,25 @@ def internal(ctx, variant, name, gen_args, chunk):
         if i.startswith("DIED") or re.search(r"\b(ABORT|SEGV|FPE|SIGNAL)\b", i) or i == "<missing>":
             bad.append((l, i[-400:], "[%s build, harness %s] crash / sanitizer report / abort: %s" % (variant, name, i[-200:])))
     return len(lines), bad, lines[:1]
+
+
+def wide_windows(ctx, variant, seed, n):
+    """designed rows of 8..12 standard cells (checks/stress_streams.py) with reordering windows of 6..8 cells (8! = 40320 orderings per
+    window), in the sanitizer build: Circuit::placeDetailed with reorderingMaxNbCells 6..8 (DP lines, harness/detailed.cpp) and the directly
+    driven DetailedPlacer::runReordering / runReorderingOnCells (DO lines, harness/dopt.cpp).  A case that dies is reported with its line."""
+    import random
+    from checks import stress_streams as ss
+    rng = random.Random(7919 * seed + 3)
+    total, bad, smp = 0, [], []
+    for name, mk in (("detailed", ss.wide_dp_line), ("dopt", ss.wide_do_line)):
+        h = common.build_harness(name, variant)
+        lines = [mk(rng) for _ in range(n)]
+        impl, _, _ = common.run_both([h, "run"], None, lines, chunk=2, timeout=240)
+        total += len(lines); smp.append(lines[0][:300])
+        for l, i in zip(lines, impl):
+            if i.startswith("DIED") or re.search(r"\b(ABORT|SEGV|FPE|SIGNAL)\b", i) or i == "<missing>" or i.startswith("SKIPPED"):
+                bad.append((l, i[-400:], "[%s build, harness %s, reordering windows of 6..8 cells] crash / sanitizer report / abort: %s" % (variant, name, i[-200:])))
+    return total, bad, smp
 
 
 def f32_term(bits):
@@ -203,6 +227,10 @@ def run(ctx):
             total += n; bad += b; per[v][name + "_cases"] = n
             if v == variants[0]:
                 samples += [x[:300] for x in smp]
+        n, b, smp = wide_windows(ctx, v, s + 88, 6 if ctx.quick else 60)
+        total += n; bad += b; per[v]["wide_reordering_window_cases"] = n
+        if v == variants[0]:
+            samples += smp
         if v == variants[0]:
             # float side of costsFromIntegers: bit-exact tie of the Flocq model (<= 100 matrices per run)
             tie, b, tdiffs = costs_tie(ctx, v, s + 86, 96)
@@ -235,7 +263,11 @@ def run(ctx):
                         "ColoquinteParameters::check() accepts it (flow_outcomes P:var = varied and accepted, P:rej = rejected -> defaults, P:def = defaults); "
                         "`flow show EFFORT PSEED` prints the set.  CIRCUITS: three streams of harness/flow.cpp (general; magnitude: site/row sizes up to 2^18, coordinates to +-2^22, cell area < 2^31; degenerate: single row, single "
                         "cell, no nets, degree-1 nets, all pins on one cell, zero-size fixed terminals, all fixed but one, infeasible density; plus the unit-cell stream with callbacks that observe / resize a cell / "
-                        "rescale the net weights), every circuit has a movable cell of "
+                        "rescale the net weights; stream 6: no free capacity; stream 7 (count/8 cases): after legalization the detailed placer has NO free row segment -- bands of 2..3 rows tiled "
+                        "exactly by macros 2..3 rows high, all movable and no standard cell / some fixed / one movable macro and the rest under one fixed macro per band -- or exactly ONE free "
+                        "segment with 0..2 standard cells, stages detailed / legalize+detailed / whole flow; stream 8 (>= 6 cases): rows of 8..12 standard cells with the override "
+                        "reorderingMaxNbCells 6..8, reorderingNbRows 1..2, nbPasses >= 1 on top of the varied set; plus wide_reordering_window_cases: 6 DP + 6 DO lines of checks/stress_streams.py "
+                        "(Circuit::placeDetailed with reorderingMaxNbCells 6..8; runReordering / runReorderingOnCells on windows of 6..8 cells) in the same sanitizer build), every circuit has a movable cell of "
                         "positive area; stages global/legalize/detailed/full flow, efforts 1-4, 4 net models, seeds; plus the legal/detailed/dopt/dplace/rowleg harness streams "
                         "in the same sanitizer build, and harness/c07mag.cpp (1-D transportation balanceDemand+assign with positions to +-2^59 and totals to 2^61 / at the "
                         "rough legalizer's scale, TransportationProblem with integer costs at INT_MAX/(4 sinks), DensityGrid on regions inside +-2^22). non-trivial = the process survived the case (every case exercises an entry point); distinct = generated case lines",
